@@ -262,3 +262,38 @@ void harness_request_new(void)
 	if (!issuing) VP_WITNESS("request built for the waiting queue");
 	mm_free(req);
 }
+
+/* ---- the 63/64 label-length boundary through dnsname_to_labels alone, both branches ----
+ * Label structure is concrete (the driver gives the label length C36_LBL = 63 or 64 and whether the
+ * label is the final one, C36_MID=0, or is followed by ".b", C36_MID=1); the label's bytes are
+ * symbolic (any octet but '.' and NUL).  63: must be encoded and decode back; 64: must be refused
+ * with -1 (a length octet 0x40 is not a label, RFC 1035 2.3.4/4.1.4). */
+#ifndef C36_LBL
+#define C36_LBL 63
+#endif
+#ifndef C36_MID
+#define C36_MID 0
+#endif
+void harness_label_limit(void)
+{
+	char name[C36_LBL + 3];
+	u8 buf[C36_LBL + 6];
+	int i, n = C36_LBL + (C36_MID ? 2 : 0);
+	off_t r;
+	for (i = 0; i < C36_LBL; i++) { name[i] = (char)vp_u8(); __CPROVER_assume(name[i] != '.' && name[i] != 0); }
+	if (C36_MID) { name[C36_LBL] = '.'; name[C36_LBL + 1] = 'b'; }
+	name[n] = 0;
+	r = dnsname_to_labels(buf, sizeof(buf), 0, name, (size_t)n, NULL);
+	if (C36_LBL > 63) {
+		VP_ASSERT(r == -1, "C36: a label of 64 octets was encoded (length octet 0x40 is not a valid label length)");
+		VP_WITNESS("64-octet label refused or encoded");
+		return;
+	}
+	VP_ASSERT(r == n + 2, "C36: a name with a 63-octet label was refused or mis-sized");
+	if (r != n + 2) return;
+	VP_ASSERT(buf[0] == C36_LBL, "C36: length octet of the 63-octet label");
+	for (i = 0; i < C36_LBL; i++) VP_ASSERT(buf[1 + i] == (u8)name[i], "C36: label bytes differ");
+	if (C36_MID) VP_ASSERT(buf[1 + C36_LBL] == 1 && buf[2 + C36_LBL] == 'b' && buf[3 + C36_LBL] == 0, "C36: second label / terminator");
+	else VP_ASSERT(buf[1 + C36_LBL] == 0, "C36: terminator");
+	VP_WITNESS("63-octet label encoded");
+}
